@@ -90,6 +90,16 @@ def model_check_recovery(c, tier):
         if d.violated != inv:
             raise ToolError("Recovery.tla with %s: expected a counterexample for %s, got %s" % (dev, inv, d.violated))
         refuted.append(dev)
+    # RecoveryIds.tla: object identity across recovery (a re-created object keeps its logged id)
+    r = run_tlc("RecoveryIds", os.path.join(vlib.SPEC, "MC_RecoveryIds.cfg"), workers=4, timeout=1800)
+    if not r.ok:
+        raise ToolError("RecoveryIds.tla (ideal design) violates %s" % r.violated)
+    c.add("states", r.distinct)
+    c.add("transitions", r.generated)
+    d = run_tlc("RecoveryIds", os.path.join(vlib.SPEC, "MC_RecoveryIds_dev.cfg"), workers=4)
+    if d.violated != "AlwaysOpens":
+        raise ToolError("RecoveryIds.tla with RedoCreateDrawsFreshObjectId: expected a counterexample for AlwaysOpens, got %s" % d.violated)
+    refuted.append("RedoCreateDrawsFreshObjectId")
     c.cov["recovery_design_mutations_refuted"] = refuted
 
 
